@@ -1087,12 +1087,20 @@ func (u *Unit) mapChain(fx *FX, cm *cmap, keyT T, vt types.Type) (Val, T) {
 	res := make([]T, len(ls))
 	copy(res, zero)
 	has := tFalse
+	// a key that mentions a quantified variable cannot be named by a top-level definition
+	bound := strings.Contains(keyT.S, "!q")
+	def := func(hint string, t T) T {
+		if bound {
+			return t
+		}
+		return fx.def(hint, t)
+	}
 	for i := len(cm.keys) - 1; i >= 0; i-- {
 		kt, ok := u.ckeyTerm(fx, cm.keys[i])
 		if !ok {
 			continue
 		}
-		c := fx.def("keyeq", eq(keyT, kt))
+		c := def("keyeq", eq(keyT, kt))
 		has = or(c, has)
 		for j := range ls {
 			vt2, ok := u.cvalTerm(fx, cm.vals[i][j], ls[j])
@@ -1103,10 +1111,10 @@ func (u *Unit) mapChain(fx *FX, cm *cmap, keyT T, vt types.Type) (Val, T) {
 		}
 	}
 	for j := range res {
-		res[j] = fx.def("mapv", res[j])
+		res[j] = def("mapv", res[j])
 	}
 	v, _ := unflatten(vt, res)
-	h := fx.def("maphas", has)
+	h := def("maphas", has)
 	if fx.chainCache == nil {
 		fx.chainCache = map[string]chainRes{}
 	}
@@ -1190,5 +1198,18 @@ func (u *Unit) mapNext(fx *FX, st *State, m VMap, x *ssa.Next, ok T, k, v Val) {
 			}
 		}
 		fx.assume(ok, or(alts...))
+		// range visits every key exactly once
+		if li := fx.loops[x.Block()]; li != nil && li.seenHdr.S != "" {
+			fx.assume(ok, not(sel(li.seenHdr, kv.T)))
+			fx.assume(ok, lt(li.countHdr, num(int64(len(cm.keys)))))
+			var all []T
+			for _, ck := range cm.keys {
+				if kt, ok2 := u.ckeyTerm(fx, ck); ok2 {
+					all = append(all, sel(li.seenHdr, kt))
+				}
+			}
+			fx.assume(not(ok), and(all...))
+			fx.assume(not(ok), eq(li.countHdr, num(int64(len(cm.keys)))))
+		}
 	}
 }
